@@ -177,6 +177,11 @@ type fidRef struct {
 	// The node above will be closed only when refs reaches zero.
 	refs int64
 
+	// openMu serializes Tlopen on this fidRef, so that Open is called at
+	// most once on the File even if a client has several Tlopen requests in
+	// flight for the same fid.
+	openMu sync.Mutex
+
 	// opened indicates whether this has been opened already.
 	//
 	// This is updated in handlers.go.
